@@ -192,13 +192,10 @@ func init() {
 		if s1 || a[1].(float64) != 2 {
 			Unsupported("math.Pow with symbolic or non-2 exponent")
 		}
-		// math.Pow(x, 2) == x*x bit for bit unless the result is subnormal (checked natively, DESIGN 2.3.3)
+		// math.Pow(x, 2) == x*x bit for bit unless the result is subnormal (checked natively, DESIGN 2.3.3);
+		// in the subnormal range both are within one subnormal ulp of x^2, which the absolute slack of
+		// the rounding axiom (2^-1073) covers.
 		x := termOf(a[0])
-		tiny := sym.RealF(math.Ldexp(1, -500))
-		okMag := sym.Or(sym.Eq(x, sym.RealF(0)), sym.Lt(tiny, sym.Abs(x)))
-		if !cx.Branch(okMag) {
-			Unsupported("math.Pow(x,2) with |x| <= 2^-500")
-		}
 		return mkSymFloat(sym.Rnd(sym.Mul(x, x)))
 	})
 	_ = big.NewInt
